@@ -173,14 +173,31 @@ end Delta1d
 section Filters
 variable {α : Type} [Field α]
 
+/-- the window `[-W, …, W]` before normalisation -/
+def rawFilter (W : Nat) : List α := (List.range (1 + 2 * W)).map fun (k : Nat) => (k : α) - (W : α)
+
+/-- the normaliser `Z = Σ_{j=-W}^{W} j²` -/
+def normZ (W : Nat) : α :=
+  ((List.range (1 + 2 * W)).map fun (k : Nat) => ((k : α) - (W : α)) * ((k : α) - (W : α))).sum
+
+/-- un-normalised taps: `[-W … W]` convolved with itself `d` times -/
+def filtNum (W : Nat) : Nat → List α
+  | 0 => [1]
+  | d + 1 => convolve (filtNum W d) (rawFilter W)
+
+theorem list_sum_range_map (f : Nat → α) (N : Nat) :
+    ((List.range N).map f).sum = ∑ u ∈ range N, f u := by
+  induction N with
+  | zero => simp
+  | succ N ih => rw [List.range_succ, List.map_append, List.sum_append, ih, Finset.sum_range_succ]; simp
+
 @[simp] theorem baseFilter_length (W : Nat) : (Deltas.baseFilter (α := α) W).length = 1 + 2 * W := by
   simp [Deltas.baseFilter]
 
 theorem baseFilter_getD (W u : Nat) (hu : u < 1 + 2 * W) :
     (Deltas.baseFilter (α := α) W).getD u 0
-      = ((u : α) - (W : α)) /
-        ((List.range (1 + 2 * W)).map fun (k : Nat) => ((k : α) - (W : α)) * ((k : α) - (W : α))).sum := by
-  unfold Deltas.baseFilter
+      = ((u : α) - (W : α)) / normZ W := by
+  unfold Deltas.baseFilter normZ
   simp only [List.getD_eq_getElem?_getD, List.getElem?_map, List.getElem?_range hu, List.map_map]
   rfl
 
@@ -222,19 +239,14 @@ theorem nextScales_eq_convolve (W : Nat) (prev : List α) (hp : 1 ≤ prev.lengt
     unfold Kaldi.nextScales
     rw [List.getElem?_map, List.getElem?_range hn]
     simp only [Option.map_some, Option.some.injEq, baseFilter_length]
-    have hsum : ∀ (f : Nat → α) (N : Nat), ((List.range N).map f).sum = ∑ u ∈ range N, f u := by
-      intro f N
-      induction N with
-      | zero => simp
-      | succ N ih => rw [List.range_succ, List.map_append, List.sum_append, ih, Finset.sum_range_succ]; simp
-    rw [hsum, Finset.sum_mul, show 2 * W + 1 = 1 + 2 * W by omega]
+    rw [list_sum_range_map, Finset.sum_mul, show 2 * W + 1 = 1 + 2 * W by omega]
     apply Finset.sum_congr rfl
     intro u hu
     have hu' : u < 1 + 2 * W := by simpa using hu
     rw [baseFilter_getD W u hu']
     by_cases h1 : u ≤ n
     · by_cases h2 : n - u < prev.length
-      · simp only [h1, h2, and_self, if_true, Nat.cast_one]
+      · simp only [h1, h2, and_self, if_true, Nat.cast_one, normZ]
         rw [show 1 + 2 * W = 2 * W + 1 by omega]
         ring
       · have : prev.getD (n - u) 0 = 0 := by
@@ -254,6 +266,749 @@ theorem scales_eq_filt (W : Nat) : ∀ d, Kaldi.scales (α := α) W d = Deltas.f
     simp only [Kaldi.scales, Deltas.filt, scales_eq_filt W d]
     exact nextScales_eq_convolve W _ (by rw [filt_length]; omega)
 
+
+@[simp] theorem rawFilter_length (W : Nat) : (rawFilter (α := α) W).length = 1 + 2 * W := by
+  simp [rawFilter]
+
+theorem baseFilter_eq_raw (W : Nat) :
+    Deltas.baseFilter (α := α) W = (rawFilter W).map fun v => v / normZ W := by
+  unfold Deltas.baseFilter rawFilter normZ
+  simp only [List.map_map]
+  rfl
+
+theorem filtNum_length (W : Nat) : ∀ d, (filtNum (α := α) W d).length = 2 * d * W + 1
+  | 0 => by simp [filtNum]
+  | d + 1 => by
+    simp only [filtNum, convolve_length, rawFilter_length, filtNum_length W d]
+    ring_nf
+    omega
+
+theorem getD_map_zero (f : α → α) (hf : f 0 = 0) (l : List α) (i : Nat) :
+    (l.map f).getD i 0 = f (l.getD i 0) := by
+  simp only [List.getD_eq_getElem?_getD, List.getElem?_map]
+  cases l[i]? <;> simp [hf]
+
+/-- convolution is bilinear: scaling both arguments scales the result by the product -/
+theorem convolve_map_div (a v : List α) (p q : α) :
+    convolve (a.map fun x => x / p) (v.map fun x => x / q) = (convolve a v).map fun x => x / (p * q) := by
+  apply List.ext_getElem?
+  intro k
+  by_cases hk : k < a.length + v.length - 1
+  · rw [convolve_getElem? _ _ _ (by simpa using hk), List.getElem?_map, convolve_getElem? _ _ _ hk]
+    simp only [List.length_map, Option.map_some, Option.some.injEq]
+    rw [div_eq_mul_inv, Finset.sum_mul]
+    apply Finset.sum_congr rfl
+    intro u _
+    rw [getD_map_zero _ (by simp), getD_map_zero _ (by simp)]
+    by_cases h : u ≤ k
+    · simp only [h, if_true]
+      rw [div_mul_div_comm, div_eq_mul_inv]
+    · simp [h]
+  · have h1 : (convolve (a.map fun x => x / p) (v.map fun x => x / q))[k]? = none := by
+      apply List.getElem?_eq_none; simp; omega
+    have h2 : ((convolve a v).map fun x => x / (p * q))[k]? = none := by
+      apply List.getElem?_eq_none; simp; omega
+    rw [h1, h2]
+
+/-- the code's filter is the integer-tap filter divided by `Z^d` -/
+theorem filt_eq_num_div (W : Nat) : ∀ d,
+    Deltas.filt (α := α) W d = (filtNum W d).map fun v => v / normZ W ^ d
+  | 0 => by simp [Deltas.filt, filtNum]
+  | d + 1 => by
+    simp only [Deltas.filt, filtNum]
+    rw [filt_eq_num_div W d, baseFilter_eq_raw, convolve_map_div, pow_succ]
+
 end Filters
+
+/-! ## Deltas: N-D assembly -/
+
+/-- the documented value of the order-`d` delta at frame `t` of a lane: the regression filter applied to
+the lane extended by the padding mode, `Σ_j filt_d[j] · ext(lane)(t + j - d·W)` -/
+def deltaValue {α : Type} [Field α] [Inhabited α] (W d : Nat) (mode : PadMode α) (lane : List α) (t : Nat) : α :=
+  ∑ j ∈ range (2 * (d * W) + 1),
+    (Deltas.filt W d).getD j 0 * ext (d * W) (d * W) mode lane ((t : Int) + (j : Int) - ((d * W : Nat) : Int))
+
+section EdgeKaldi
+variable {α : Type} [Field α] [Inhabited α]
+
+/-- `edge` padding is Kaldi's frame clamping -/
+theorem ext_edge_clamp (l r : Nat) (x : List α) (hT : 0 < x.length) (i : Int) :
+    ext l r .edge x i
+      = x.getD (if i < 0 then 0 else if i ≥ (x.length : Int) then x.length - 1 else i.toNat) 0 := by
+  unfold ext
+  by_cases h : 0 ≤ i ∧ i < (x.length : Int)
+  · simp only [h, and_self, if_true]
+    rw [if_neg (by omega), if_neg (by omega)]
+    exact getD_irrel _ _ _ _ (by omega)
+  · simp only [h, if_false]
+    by_cases hneg : i < 0
+    · simp only [hneg, if_true]
+      exact getD_irrel _ _ _ _ hT
+    · simp only [hneg, if_false]
+      rw [if_pos (by omega)]
+      exact getD_irrel _ _ _ _ (by omega)
+
+theorem deltaValue_edge_eq_kaldi (W d : Nat) (lane : List α) (t : Nat) (ht : t < lane.length) :
+    deltaValue W d .edge lane t = (Kaldi.process W d lane).getD t 0 := by
+  unfold Kaldi.process deltaValue
+  simp only [scales_eq_filt, filt_length]
+  rw [List.getD_eq_getElem?_getD, List.getElem?_map, List.getElem?_range ht]
+  simp only [Option.map_some, Option.getD_some]
+  have hm : (2 * d * W + 1 - 1) / 2 = d * W := by
+    rw [Nat.add_sub_cancel, Nat.mul_assoc, Nat.mul_div_cancel_left _ (by omega)]
+  rw [hm, list_sum_range_map]
+  apply Finset.sum_congr rfl
+  intro j _
+  rw [ext_edge_clamp _ _ _ (by omega)]
+
+end EdgeKaldi
+
+namespace Deltas
+section ND
+variable {α : Type} [Field α] [Inhabited α]
+
+/-- `axis % features.ndim` -/
+def axisOf (x : Tensor α) (axis : Int) : Nat := (axis % (x.shape.length : Int)).toNat
+
+/-- the condition under which `np.pad` raises inside the loops -/
+def padError (c : Deltas α) (x : Tensor α) (axis : Int) : Prop :=
+  1 ≤ c.numDeltas ∧ 0 < numel (x.shape.set (axisOf x axis) 1) ∧ x.shape.getD (axisOf x axis) 0 = 0
+    ∧ c.padMode.isConstant = false
+
+instance (c : Deltas α) (x : Tensor α) (axis : Int) : Decidable (padError c x axis) := by
+  unfold padError; exact inferInstance
+
+/-- `delta_feats[1:]` -/
+def feats (c : Deltas α) (ax : Nat) (x : Tensor α) : List (Tensor α) :=
+  (List.range c.numDeltas).map fun d =>
+    mapLanes ax (delta1d (filt c.contextWindow (d + 1)) c.padMode c.cast) x
+
+theorem apply_padError (c : Deltas α) (x : Tensor α) (axis : Int) (hr : x.shape.length ≠ 0)
+    (h : padError c x axis) : c.apply x axis = .error .value := by
+  unfold padError axisOf at h
+  unfold apply
+  simp only [hr, false_and, if_false]
+  rw [if_pos h]
+
+theorem apply_eq (c : Deltas α) (x : Tensor α) (axis : Int) (hr : x.shape.length ≠ 0)
+    (h : ¬ padError c x axis) :
+    c.apply x axis =
+      if c.concatenate then Tensor.concatenate (x :: feats c (axisOf x axis) x) c.targetAxis
+      else Tensor.stack (x :: feats c (axisOf x axis) x) c.targetAxis := by
+  unfold padError axisOf at h
+  unfold apply feats axisOf
+  simp only [hr, false_and, if_false]
+  rw [if_neg h, filts_drop_one, List.map_map]
+  rfl
+
+theorem feats_length (c : Deltas α) (ax : Nat) (x : Tensor α) : (feats c ax x).length = c.numDeltas := by
+  simp [feats]
+
+theorem feats_shape (c : Deltas α) (ax : Nat) (x : Tensor α) : ∀ t ∈ feats c ax x, t.shape = x.shape := by
+  intro t ht
+  simp only [feats, List.mem_map] at ht
+  obtain ⟨d, _, rfl⟩ := ht
+  rfl
+
+theorem feats_getD (c : Deltas α) (ax : Nat) (x : Tensor α) (d : Nat) (hd : d < c.numDeltas) :
+    (x :: feats c ax x).getD (d + 1) x
+      = mapLanes ax (delta1d (filt c.contextWindow (d + 1)) c.padMode c.cast) x := by
+  rw [List.getD_cons_succ, List.getD_eq_getElem?_getD]
+  unfold feats
+  rw [List.getElem?_map, List.getElem?_range hd]
+  rfl
+
+/-- value of `delta_feats[d+1]` at a valid index -/
+theorem feats_val (c : Deltas α) (ax : Nat) (x : Tensor α) (d : Nat) (hd : d < c.numDeltas)
+    (hW : 0 < c.contextWindow) (idx : List Nat) (hv : valid x.shape idx = true) (hax : ax < x.shape.length) :
+    ((x :: feats c ax x).getD (d + 1) x).val idx
+      = c.cast (deltaValue c.contextWindow (d + 1) c.padMode (x.lane ax idx) (idx.getD ax 0)) := by
+  rw [feats_getD c ax x d hd]
+  unfold Tensor.val
+  rw [get_mapLanes ax _ x idx hv]
+  simp only [Option.getD_some]
+  have ht : idx.getD ax 0 < (x.lane ax idx).length := by
+    rw [lane_length]; exact valid_getD hv hax
+  have hm : 1 ≤ (d + 1) * c.contextWindow := Nat.mul_pos (by omega) hW
+  rw [List.getD_eq_getElem?_getD,
+    delta1d_getElem? _ _ _ _ ((d + 1) * c.contextWindow) _ (by rw [filt_length]; ring) hm ht]
+  rfl
+
+
+/-- what a successful call with `concatenate=True` returned -/
+theorem apply_concat_inv (c : Deltas α) (x out : Tensor α) (axis : Int) (hr : x.shape.length ≠ 0)
+    (hc : c.concatenate = true) (h : c.apply x axis = .ok out) :
+    ¬ padError c x axis ∧ ∃ ta, normAxis c.targetAxis x.shape.length = some ta ∧
+      out = ofFn (x.shape.set ta (x.shape.getD ta 0 * (c.numDeltas + 1)))
+        (fun idx => concatVal (x :: feats c (axisOf x axis) x) ta idx) := by
+  by_cases hp : padError c x axis
+  · rw [apply_padError c x axis hr hp] at h; cases h
+  · refine ⟨hp, ?_⟩
+    rw [apply_eq c x axis hr hp, if_pos hc] at h
+    cases ha : normAxis c.targetAxis x.shape.length with
+    | none =>
+      rw [concatenate_axisErr _ _ _ (feats_shape c _ x) hr ha] at h; cases h
+    | some ta =>
+      rw [concatenate_uniform _ _ _ ta (feats_shape c _ x) hr ha, feats_length] at h
+      injection h with h
+      exact ⟨ta, rfl, h.symm⟩
+
+/-- what a successful call with `concatenate=False` returned -/
+theorem apply_stack_inv (c : Deltas α) (x out : Tensor α) (axis : Int) (hr : x.shape.length ≠ 0)
+    (hc : c.concatenate = false) (h : c.apply x axis = .ok out) :
+    ¬ padError c x axis ∧ ∃ ta, normAxis c.targetAxis (x.shape.length + 1) = some ta ∧
+      out = ofFn (x.shape.insertIdx ta (c.numDeltas + 1))
+        (fun idx => ((x :: feats c (axisOf x axis) x).getD (idx.getD ta 0) x).val (idx.eraseIdx ta)) := by
+  by_cases hp : padError c x axis
+  · rw [apply_padError c x axis hr hp] at h; cases h
+  · refine ⟨hp, ?_⟩
+    rw [apply_eq c x axis hr hp, if_neg (by simp [hc])] at h
+    cases ha : normAxis c.targetAxis (x.shape.length + 1) with
+    | none =>
+      rw [stack_axisErr _ _ _ (feats_shape c _ x) ha] at h; cases h
+    | some ta =>
+      rw [stack_uniform _ _ _ ta (feats_shape c _ x) ha, feats_length] at h
+      injection h with h
+      exact ⟨ta, rfl, h.symm⟩
+
+/-- exactly when, and how, the call fails (rank ≥ 1) -/
+theorem apply_error_iff (c : Deltas α) (x : Tensor α) (axis : Int) (hr : x.shape.length ≠ 0) (e : Err) :
+    c.apply x axis = .error e ↔
+      (padError c x axis ∧ e = .value) ∨
+      (¬ padError c x axis ∧ e = .axisErr ∧
+        normAxis c.targetAxis (if c.concatenate then x.shape.length else x.shape.length + 1) = none) := by
+  by_cases hp : padError c x axis
+  · rw [apply_padError c x axis hr hp]
+    constructor
+    · intro h; injection h with h; exact Or.inl ⟨hp, h.symm⟩
+    · rintro (⟨_, rfl⟩ | ⟨h, _⟩)
+      · rfl
+      · exact absurd hp h
+  · rw [apply_eq c x axis hr hp]
+    cases hc : c.concatenate
+    · simp only [Bool.false_eq_true, if_false]
+      cases ha : normAxis c.targetAxis (x.shape.length + 1) with
+      | none =>
+        rw [stack_axisErr _ _ _ (feats_shape c _ x) ha]
+        constructor
+        · intro h; injection h with h; exact Or.inr ⟨hp, h.symm, rfl⟩
+        · rintro (⟨h, _⟩ | ⟨_, rfl, _⟩)
+          · exact absurd h hp
+          · rfl
+      | some ta =>
+        rw [stack_uniform _ _ _ ta (feats_shape c _ x) ha]
+        constructor
+        · intro h; cases h
+        · rintro (⟨h, _⟩ | ⟨_, _, h⟩)
+          · exact absurd h hp
+          · cases h
+    · simp only [if_true]
+      cases ha : normAxis c.targetAxis x.shape.length with
+      | none =>
+        rw [concatenate_axisErr _ _ _ (feats_shape c _ x) hr ha]
+        constructor
+        · intro h; injection h with h; exact Or.inr ⟨hp, h.symm, rfl⟩
+        · rintro (⟨h, _⟩ | ⟨_, rfl, _⟩)
+          · exact absurd h hp
+          · rfl
+      | some ta =>
+        rw [concatenate_uniform _ _ _ ta (feats_shape c _ x) hr ha]
+        constructor
+        · intro h; cases h
+        · rintro (⟨h, _⟩ | ⟨_, _, h⟩)
+          · exact absurd h hp
+          · cases h
+
+end ND
+end Deltas
+
+/-! ## Stack -/
+namespace Stack
+section
+variable {α : Type} [Inhabited α]
+
+/-- the strided N-D branch succeeds and is a tabulation -/
+theorem pathNd_eq (n ta ax nT : Nat) (x1 : Tensor α) (hn : 1 ≤ n) (hax : ax < x1.shape.length)
+    (hne : ax ≠ ta) (hle : nT * n ≤ x1.shape.getD ta 0) :
+    pathNd n ta ax (nT * n) x1
+      = .ok (ofFn ((x1.shape.set ta nT).set ax (x1.shape.getD ax 0 * n))
+          (fun idx => concatVal ((List.range n).map fun i => x1.sliceAxis ta i (nT * n) n) ax idx)) := by
+  unfold pathNd
+  have hsh : ∀ t ∈ (List.range n).map (fun i => x1.sliceAxis ta i (nT * n) n),
+      t.shape = x1.shape.set ta nT := by
+    intro t ht
+    simp only [List.mem_map, List.mem_range] at ht
+    obtain ⟨i, hi, rfl⟩ := ht
+    rw [sliceAxis_shape, sliceLen_strided i nT n _ hi hle]
+  have hF : (x1.shape.set ta nT).getD ax 0 = x1.shape.getD ax 0 := by
+    rw [getD_set_eq, if_neg (by intro h; exact hne h.1.symm)]
+  rw [concatenate_uniform' _ (x1.shape.set ta nT) (ax : Int) ax
+    (by intro h; have := congrArg List.length h; simp at this; omega) hsh
+    (by rw [List.length_set]; omega) (normAxis_natCast (by rw [List.length_set]; exact hax))]
+  rw [hF, List.length_map, List.length_range]
+
+/-- every element of the strided branch: `out[…, t', …, v·F + f, …] = x1[…, t'·n + v, …, f, …]` -/
+theorem pathNd_get (n ta ax nT : Nat) (x1 : Tensor α) (hax : ax < x1.shape.length)
+    (hne : ax ≠ ta) (hle : nT * n ≤ x1.shape.getD ta 0) (idx : List Nat)
+    (hv : valid ((x1.shape.set ta nT).set ax (x1.shape.getD ax 0 * n)) idx = true) :
+    (ofFn ((x1.shape.set ta nT).set ax (x1.shape.getD ax 0 * n))
+        (fun idx => concatVal ((List.range n).map fun i => x1.sliceAxis ta i (nT * n) n) ax idx)).get idx
+      = some (x1.val ((idx.set ax (idx.getD ax 0 % x1.shape.getD ax 0)).set ta
+          (idx.getD ax 0 / x1.shape.getD ax 0 + idx.getD ta 0 * n))) := by
+  have hF : (x1.shape.set ta nT).getD ax 0 = x1.shape.getD ax 0 := by
+    rw [getD_set_eq, if_neg (by intro h; exact hne h.1.symm)]
+  have hlen : idx.length = x1.shape.length := by simpa using valid_length hv
+  have hj : idx.getD ax 0 < x1.shape.getD ax 0 * n := by
+    have := valid_getD hv (a := ax) (by simpa using hax)
+    rwa [getD_set_eq, if_pos ⟨rfl, by simpa using hax⟩] at this
+  have hFpos : 0 < x1.shape.getD ax 0 := by
+    rcases Nat.eq_zero_or_pos (x1.shape.getD ax 0) with h0 | h0
+    · rw [h0] at hj; omega
+    · exact h0
+  have hvn : idx.getD ax 0 / x1.shape.getD ax 0 < n := Nat.div_lt_of_lt_mul hj
+  rw [get_ofFn _ _ _ hv,
+    concatVal_uniform ax (x1.shape.getD ax 0) _ idx x1
+      (by intro t ht
+          simp only [List.mem_map, List.mem_range] at ht
+          obtain ⟨i, hi, rfl⟩ := ht
+          rw [sliceAxis_shape, sliceLen_strided i nT n _ hi hle, hF])
+      (by omega) (by simpa using hj)]
+  congr 1
+  rw [List.getD_eq_getElem?_getD, List.getElem?_map, List.getElem?_range hvn]
+  simp only [Option.map_some, Option.getD_some]
+  have hv' : valid (x1.sliceAxis ta (idx.getD ax 0 / x1.shape.getD ax 0) (nT * n) n).shape
+      (idx.set ax (idx.getD ax 0 % x1.shape.getD ax 0)) = true := by
+    rw [sliceAxis_shape, sliceLen_strided _ nT n _ hvn hle]
+    exact valid_of_valid_set hv (by rw [hF]; exact Nat.mod_lt _ hFpos)
+  unfold Tensor.val
+  rw [get_sliceAxis _ _ _ _ _ _ hv']
+  simp only [Option.getD_some]
+  have : (idx.set ax (idx.getD ax 0 % x1.shape.getD ax 0)).getD ta 0 = idx.getD ta 0 := by
+    rw [getD_set_eq, if_neg (by intro h; exact hne h.1)]
+  rw [this]
+  rfl
+
+/-- number of output frames: `T // n`, one more if padding is on and there is an incomplete run -/
+def frames (c : Stack α) (T0 : Nat) : Nat :=
+  if c.padMode.isSome ∧ T0 % c.numVectors ≠ 0 then T0 / c.numVectors + 1 else T0 / c.numVectors
+
+/-- length of the time axis after the optional `np.pad` -/
+def paddedLen (c : Stack α) (T0 : Nat) : Nat :=
+  if c.padMode.isSome ∧ T0 % c.numVectors ≠ 0 then T0 + (c.numVectors - T0 % c.numVectors) else T0
+
+/-- `features` after the optional `np.pad` -/
+def padded (c : Stack α) (ta : Nat) (x : Tensor α) : Tensor α :=
+  match c.padMode with
+  | some mode =>
+    if x.shape.getD ta 0 % c.numVectors ≠ 0 then
+      x.padAxis ta 0 (c.numVectors - x.shape.getD ta 0 % c.numVectors) mode
+    else x
+  | none => x
+
+omit [Inhabited α] in
+theorem paddedLen_div (c : Stack α) (T0 : Nat) (hn : 1 ≤ c.numVectors) :
+    paddedLen c T0 / c.numVectors = frames c T0 := by
+  unfold paddedLen frames
+  split
+  · have h := Nat.div_add_mod T0 c.numVectors
+    have : T0 + (c.numVectors - T0 % c.numVectors) = c.numVectors * (T0 / c.numVectors + 1) := by
+      have hm := Nat.mod_lt T0 (show 0 < c.numVectors by omega)
+      rw [Nat.mul_add, Nat.mul_one]; omega
+    rw [this, Nat.mul_div_cancel_left _ (by omega)]
+  · rfl
+
+omit [Inhabited α] in
+theorem frames_mul_le (c : Stack α) (T0 : Nat) (hn : 1 ≤ c.numVectors) :
+    frames c T0 * c.numVectors ≤ paddedLen c T0 := by
+  rw [← paddedLen_div c T0 hn]
+  exact Nat.div_mul_le_self _ _
+
+theorem padded_shape (c : Stack α) (ta : Nat) (x : Tensor α) :
+    (padded c ta x).shape = x.shape.set ta (paddedLen c (x.shape.getD ta 0)) := by
+  unfold padded paddedLen
+  cases hm : c.padMode with
+  | none => simp only [Option.isSome_none, Bool.false_eq_true, false_and, if_false, set_getD_self]
+  | some mode =>
+    by_cases hrem : x.shape.getD ta 0 % c.numVectors ≠ 0
+    · simp only [hrem, Option.isSome_some, true_and, if_true, padAxis_shape, ne_eq, not_false_eq_true]
+      congr 1; omega
+    · simp only [hrem, if_false, Option.isSome_some, true_and, set_getD_self]
+
+theorem padded_wf (c : Stack α) (ta : Nat) (x : Tensor α) (hwf : x.WF) : (padded c ta x).WF := by
+  unfold padded
+  cases c.padMode with
+  | none => exact hwf
+  | some mode =>
+    simp only
+    split
+    · exact padAxis_wf _ _ _ _ _
+    · exact hwf
+
+theorem ext_inside (l r : Nat) (mode : PadMode α) (x : List α) (i : Int) (h : 0 ≤ i ∧ i < (x.length : Int)) :
+    ext l r mode x i = x.getD i.toNat default := by
+  unfold ext
+  simp only [h, and_self, if_true]
+
+/-- values of the (possibly padded) features: the input where it exists, the extension beyond -/
+theorem padded_val (c : Stack α) (ta : Nat) (x : Tensor α) (src : List Nat) (hta : ta < x.shape.length)
+    (hv : valid (padded c ta x).shape src = true) :
+    (padded c ta x).val src =
+      if src.getD ta 0 < x.shape.getD ta 0 then x.val src
+      else match c.padMode with
+        | some mode =>
+          ext 0 (c.numVectors - x.shape.getD ta 0 % c.numVectors) mode (x.lane ta src) (src.getD ta 0 : Nat)
+        | none => x.val src := by
+  unfold padded at hv ⊢
+  cases hm : c.padMode with
+  | none => simp only [ite_self]
+  | some mode =>
+    simp only [hm] at hv
+    by_cases hrem : x.shape.getD ta 0 % c.numVectors ≠ 0
+    · simp only [hrem, if_true, ne_eq, not_false_eq_true] at hv ⊢
+      unfold Tensor.val
+      rw [get_padAxis _ _ _ _ _ _ hv]
+      simp only [Option.getD_some, Nat.cast_zero, sub_zero]
+      by_cases hlt : src.getD ta 0 < x.shape.getD ta 0
+      · simp only [hlt, if_true]
+        rw [ext_inside _ _ _ _ _ (by rw [lane_length]; omega)]
+        simp only [Int.toNat_natCast]
+        rw [lane_getD _ _ _ _ hlt, set_getD_self]
+        rfl
+      · simp only [hlt, if_false]
+    · have hrem' : x.shape.getD ta 0 % c.numVectors = 0 := by omega
+      simp only [hrem', ne_eq, not_true_eq_false, if_false] at hv ⊢
+      have : src.getD ta 0 < x.shape.getD ta 0 := valid_getD hv hta
+      simp only [this, if_true]
+
+
+/-- `axis % ndim`, `time_axis % ndim` -/
+def axOf (x : Tensor α) (axis : Int) : Nat := (axis % (x.shape.length : Int)).toNat
+def taOf (c : Stack α) (x : Tensor α) : Nat := (c.timeAxis % (x.shape.length : Int)).toNat
+
+theorem prepare_rank0 (c : Stack α) (x : Tensor α) (axis : Int) (hr : x.shape.length = 0) :
+    prepare c x axis = .error .zeroDivision := by
+  unfold prepare; simp only [hr, if_true]
+
+theorem prepare_same_axis (c : Stack α) (x : Tensor α) (axis : Int) (hr : x.shape.length ≠ 0)
+    (he : axOf x axis = taOf c x) : prepare c x axis = .error .runtime := by
+  unfold axOf taOf at he
+  unfold prepare; simp only [hr, if_false, he, if_true]
+
+theorem prepare_eq (c : Stack α) (x : Tensor α) (axis : Int) (hn : 1 ≤ c.numVectors)
+    (hr : x.shape.length ≠ 0) (hne : axOf x axis ≠ taOf c x) :
+    prepare c x axis = .ok
+      { ta := taOf c x, ax := axOf x axis,
+        T := frames c (x.shape.getD (taOf c x) 0) * c.numVectors,
+        nT := frames c (x.shape.getD (taOf c x) 0),
+        nF := x.shape.getD (axOf x axis) 0 * c.numVectors,
+        x1 := padded c (taOf c x) x } := by
+  have hdiv := paddedLen_div c (x.shape.getD (taOf c x) 0) hn
+  unfold axOf taOf at hne hdiv ⊢
+  unfold prepare
+  simp only [hr, if_false, hne]
+  unfold paddedLen at hdiv
+  unfold padded
+  cases hm : c.padMode with
+  | none =>
+    simp only [hm, Option.isSome_none, Bool.false_eq_true, false_and, if_false] at hdiv
+    simp only [hdiv]
+  | some mode =>
+    simp only [hm, Option.isSome_some, true_and] at hdiv
+    by_cases hrem : x.shape.getD (c.timeAxis % (x.shape.length : Int)).toNat 0 % c.numVectors ≠ 0
+    · simp only [hrem, if_true, ne_eq, not_false_eq_true] at hdiv ⊢
+      simp only [hdiv]
+    · simp only [hrem, if_false] at hdiv ⊢
+      simp only [hdiv]
+
+/-- the N-D branch of `apply`, as a tabulation -/
+theorem applyNd_eq (c : Stack α) (x : Tensor α) (axis : Int) (hn : 1 ≤ c.numVectors)
+    (hr : x.shape.length ≠ 0) (hne : axOf x axis ≠ taOf c x) :
+    applyNd c x axis = .ok
+      (ofFn ((x.shape.set (taOf c x) (frames c (x.shape.getD (taOf c x) 0))).set (axOf x axis)
+            (x.shape.getD (axOf x axis) 0 * c.numVectors))
+        (fun idx => concatVal ((List.range c.numVectors).map fun i =>
+          (padded c (taOf c x) x).sliceAxis (taOf c x) i
+            (frames c (x.shape.getD (taOf c x) 0) * c.numVectors) c.numVectors) (axOf x axis) idx)) := by
+  have hta : taOf c x < x.shape.length := emod_axis_lt _ hr
+  have hax : axOf x axis < x.shape.length := emod_axis_lt _ hr
+  unfold applyNd
+  rw [prepare_eq c x axis hn hr hne]
+  show pathNd _ _ _ _ _ = _
+  have hsh := padded_shape c (taOf c x) x
+  rw [pathNd_eq _ _ _ _ _ hn (by rw [hsh, List.length_set]; exact hax) hne
+    (by rw [hsh, getD_set_eq, if_pos ⟨rfl, hta⟩]; exact frames_mul_le c _ hn)]
+  rw [hsh, List.set_set, getD_set_eq, if_neg (by intro h; exact hne h.1.symm)]
+
+omit [Inhabited α] in
+theorem get_reshape_ofFn (sh sh' : List Nat) (f : List Nat → α) (idx : List Nat)
+    (hnum : numel sh' = numel sh) (hv : valid sh' idx = true) :
+    (⟨sh', (ofFn sh f).data⟩ : Tensor α).get idx = some (f (unflat sh (flat sh' idx))) := by
+  have hl := flat_lt sh' idx hv
+  simp only [Tensor.get, hv, if_true, ofFn]
+  rw [List.getElem?_map, List.getElem?_range (by omega)]
+  rfl
+
+omit [Inhabited α] in
+theorem reshape_arith (F n t' c : Nat) (hF : 0 < F) :
+    (t' * (F * n) + c) / F = c / F + t' * n ∧ (t' * (F * n) + c) % F = c % F := by
+  have : t' * (F * n) + c = F * (t' * n) + c := by ring
+  rw [this, Nat.mul_add_div hF, Nat.mul_add_mod]
+  exact ⟨by omega, rfl⟩
+
+omit [Inhabited α] in
+theorem valid_two {a b : Nat} {idx : List Nat} (h : valid [a, b] idx = true) :
+    ∃ i j, idx = [i, j] ∧ i < a ∧ j < b := by
+  match idx, h with
+  | [], h => simp [valid] at h
+  | [_], h => simp [valid] at h
+  | [i, j], h => exact ⟨i, j, rfl, by simpa [valid] using h⟩
+  | _ :: _ :: _ :: _, h => simp [valid] at h
+
+theorem path2d_eq_pathNd_t0 (ip : Bool) (n nT A B : Nat) (x1 : Tensor α) (hsh : x1.shape = [A, B])
+    (hn : 1 ≤ n) (hle : nT * n ≤ A) :
+    path2d ip 0 (nT * n) nT (B * n) x1 = pathNd n 0 1 (nT * n) x1 := by
+  have hA : x1.shape.getD 0 0 = A := by rw [hsh]; rfl
+  have hB : x1.shape.getD 1 0 = B := by rw [hsh]; rfl
+  have hslice : x1.sliceAxis 0 0 (nT * n) 1
+      = ofFn [nT * n, B] (fun idx => x1.val (idx.set 0 (0 + idx.getD 0 0 * 1))) := by
+    unfold sliceAxis; rw [hA, sliceLen_prefix _ _ hle, hsh]; rfl
+  have hnum : numel [nT, B * n] = numel [nT * n, B] := by simp only [numel]; ring
+  unfold path2d
+  simp only [copy_eq, ite_self, ne_eq, not_true_eq_false, if_false, hslice]
+  unfold reshape
+  rw [if_pos (by rw [hnum]; simp [ofFn])]
+  show Except.ok _ = _
+  rw [pathNd_eq n 0 1 nT x1 hn (by rw [hsh]; simp) (by omega) (by rw [hA]; exact hle)]
+  congr 1
+  have hshape : (x1.shape.set 0 nT).set 1 (x1.shape.getD 1 0 * n) = [nT, B * n] := by
+    rw [hB, hsh]; rfl
+  apply Tensor.ext
+  · show List.length _ = numel [nT, B * n]
+    rw [hnum]; simp [ofFn]
+  · exact ofFn_wf _ _
+  · exact hshape.symm
+  · intro idx hv
+    have hv' : valid [nT, B * n] idx = true := hv
+    obtain ⟨t', c, rfl, ht', hc⟩ := valid_two hv'
+    have hBpos : 0 < B := by
+      rcases Nat.eq_zero_or_pos B with h0 | h0
+      · subst h0; omega
+      · exact h0
+    rw [get_reshape_ofFn _ _ _ _ hnum hv', pathNd_get n 0 1 nT x1 (by rw [hsh]; simp) (by omega)
+      (by rw [hA]; exact hle) _ (by rw [hshape]; exact hv')]
+    congr 2
+    obtain ⟨h1, h2⟩ := reshape_arith B n t' c hBpos
+    simp only [flat, unflat, numel, hB, Nat.mul_one, Nat.add_zero, Nat.div_one, Nat.zero_add,
+      List.set_cons_zero, List.set_cons_succ, List.getD_cons_zero, List.getD_cons_succ, h1, h2]
+
+
+theorem path2d_eq_pathNd_t1 (ip : Bool) (n nT A B : Nat) (x1 : Tensor α) (hsh : x1.shape = [B, A])
+    (hn : 1 ≤ n) (hle : nT * n ≤ A) :
+    path2d ip 1 (nT * n) nT (B * n) x1 = pathNd n 1 0 (nT * n) x1 := by
+  have hA : x1.shape.getD 1 0 = A := by rw [hsh]; rfl
+  have hB : x1.shape.getD 0 0 = B := by rw [hsh]; rfl
+  have hslice : x1.transpose.sliceAxis 0 0 (nT * n) 1
+      = ofFn [nT * n, B] (fun idx => x1.transpose.val (idx.set 0 (0 + idx.getD 0 0 * 1))) := by
+    unfold sliceAxis
+    rw [transpose_shape, hsh]
+    show ofFn ([A, B].set 0 (sliceLen 0 (nT * n) 1 A)) _ = _
+    rw [sliceLen_prefix _ _ hle]; rfl
+  have hnum : numel [nT, B * n] = numel [nT * n, B] := by simp only [numel]; ring
+  unfold path2d
+  simp only [copy_eq, ite_self, ne_eq, not_false_eq_true, if_true, hslice,
+    one_ne_zero]
+  unfold reshape
+  rw [if_pos (by rw [hnum]; simp [ofFn])]
+  show Except.ok _ = _
+  rw [pathNd_eq n 1 0 nT x1 hn (by rw [hsh]; simp) (by omega) (by rw [hA]; exact hle)]
+  congr 1
+  have hshape : (x1.shape.set 1 nT).set 0 (x1.shape.getD 0 0 * n) = [B * n, nT] := by
+    rw [hB, hsh]; rfl
+  apply Tensor.ext
+  · exact transpose_wf _
+  · exact ofFn_wf _ _
+  · exact hshape.symm
+  · intro idx hv
+    have hv' : valid [B * n, nT] idx = true := hv
+    obtain ⟨c, t', rfl, hc, ht'⟩ := valid_two hv'
+    have hBpos : 0 < B := by
+      rcases Nat.eq_zero_or_pos B with h0 | h0
+      · subst h0; omega
+      · exact h0
+    obtain ⟨h1, h2⟩ := reshape_arith B n t' c hBpos
+    have hvr : valid [nT, B * n] [t', c] = true := by simp [valid, ht', hc]
+    have hrow : c / B + t' * n < nT * n := by
+      have : c / B < n := Nat.div_lt_of_lt_mul hc
+      calc c / B + t' * n < n + t' * n := by omega
+        _ = (t' + 1) * n := by ring
+        _ ≤ nT * n := Nat.mul_le_mul_right _ ht'
+    rw [get_transpose _ _ (show valid (Tensor.shape ⟨[nT, B * n], _⟩).reverse [c, t'] = true from hv'), pathNd_get n 1 0 nT x1 (by rw [hsh]; simp) (by omega)
+      (by rw [hA]; exact hle) _ (by rw [hshape]; exact hv')]
+    congr 1
+    show Tensor.val _ [t', c] = _
+    unfold Tensor.val
+    rw [get_reshape_ofFn _ _ _ _ hnum hvr]
+    simp only [Option.getD_some, flat, unflat, numel, Nat.mul_one, Nat.add_zero, Nat.div_one,
+      Nat.zero_add, List.set_cons_zero, List.getD_cons_zero, h1, h2]
+    rw [get_transpose _ _ (by rw [hsh]; simp [valid, Nat.mod_lt _ hBpos]; omega)]
+    simp only [Option.getD_some, hB, List.reverse_cons, List.reverse_nil, List.nil_append,
+      List.cons_append, List.set_cons_zero, List.set_cons_succ, List.getD_cons_zero, List.getD_cons_succ]
+    rfl
+
+
+/-- rank 2: the reshape path and the strided path return the same tensor, for both `time_axis` values,
+every `num_vectors`, every number of frames, and whatever `in_place` is -/
+theorem path2d_eq_pathNd (ip : Bool) (n ta ax nT : Nat) (x1 : Tensor α) (hrank : x1.shape.length = 2)
+    (hax : ax < 2) (hta : ta < 2) (hne : ax ≠ ta) (hn : 1 ≤ n) (hle : nT * n ≤ x1.shape.getD ta 0) :
+    path2d ip ta (nT * n) nT (x1.shape.getD ax 0 * n) x1 = pathNd n ta ax (nT * n) x1 := by
+  match hs : x1.shape, hrank with
+  | [a, b], _ =>
+    have hta' : ta = 0 ∨ ta = 1 := by omega
+    rcases hta' with rfl | rfl
+    · have : ax = 1 := by omega
+      subst this
+      have hle' : nT * n ≤ a := by simpa [hs] using hle
+      simpa [hs] using path2d_eq_pathNd_t0 ip n nT a b x1 hs hn hle'
+    · have : ax = 0 := by omega
+      subst this
+      have hle' : nT * n ≤ b := by simpa [hs] using hle
+      simpa [hs] using path2d_eq_pathNd_t1 ip n nT b a x1 hs hn hle'
+
+/-- the `ndim == 2` special case of `apply` changes nothing -/
+theorem apply_eq_applyNd (c : Stack α) (x : Tensor α) (axis : Int) (ip : Bool) (hn : 1 ≤ c.numVectors) :
+    c.apply x axis ip = c.applyNd x axis := by
+  by_cases hr : x.shape.length = 0
+  · unfold apply applyNd; rw [prepare_rank0 c x axis hr]; rfl
+  · by_cases hne : axOf x axis = taOf c x
+    · unfold apply applyNd; rw [prepare_same_axis c x axis hr hne]; rfl
+    · have hta : taOf c x < x.shape.length := emod_axis_lt _ hr
+      have hax : axOf x axis < x.shape.length := emod_axis_lt _ hr
+      unfold apply applyNd
+      rw [prepare_eq c x axis hn hr hne]
+      show (if x.shape.length = 2 then _ else _) = pathNd _ _ _ _ _
+      by_cases h2 : x.shape.length = 2
+      · rw [if_pos h2]
+        have hsh := padded_shape c (taOf c x) x
+        have hF : (padded c (taOf c x) x).shape.getD (axOf x axis) 0 = x.shape.getD (axOf x axis) 0 := by
+          rw [hsh, getD_set_eq, if_neg (by intro h; exact hne h.1.symm)]
+        rw [← hF]
+        exact path2d_eq_pathNd _ c.numVectors (taOf c x) (axOf x axis) (frames c (x.shape.getD (taOf c x) 0))
+          (padded c (taOf c x) x) (by rw [hsh, List.length_set]; exact h2)
+          (show axOf x axis < 2 by omega) (show taOf c x < 2 by omega) hne hn (by rw [hsh, getD_set_eq, if_pos ⟨rfl, hta⟩]; exact frames_mul_le c _ hn)
+      · rw [if_neg h2]
+
+
+/-- what a successful `apply` returned (any rank ≥ 2, either branch) -/
+theorem apply_inv (c : Stack α) (x out : Tensor α) (axis : Int) (ip : Bool) (hn : 1 ≤ c.numVectors)
+    (h : c.apply x axis ip = .ok out) :
+    x.shape.length ≠ 0 ∧ axOf x axis ≠ taOf c x ∧
+    out = ofFn ((x.shape.set (taOf c x) (frames c (x.shape.getD (taOf c x) 0))).set (axOf x axis)
+            (x.shape.getD (axOf x axis) 0 * c.numVectors))
+        (fun idx => concatVal ((List.range c.numVectors).map fun i =>
+          (padded c (taOf c x) x).sliceAxis (taOf c x) i
+            (frames c (x.shape.getD (taOf c x) 0) * c.numVectors) c.numVectors) (axOf x axis) idx) := by
+  rw [apply_eq_applyNd c x axis ip hn] at h
+  by_cases hr : x.shape.length = 0
+  · unfold applyNd at h; rw [prepare_rank0 c x axis hr] at h; cases h
+  · by_cases hne : axOf x axis = taOf c x
+    · unfold applyNd at h; rw [prepare_same_axis c x axis hr hne] at h; cases h
+    · rw [applyNd_eq c x axis hn hr hne] at h
+      injection h with h
+      exact ⟨hr, hne, h.symm⟩
+
+/-- exactly when and how `Stack.apply` raises -/
+theorem apply_error_iff (c : Stack α) (x : Tensor α) (axis : Int) (ip : Bool) (hn : 1 ≤ c.numVectors)
+    (e : Err) :
+    c.apply x axis ip = .error e ↔
+      (x.shape.length = 0 ∧ e = .zeroDivision) ∨
+      (x.shape.length ≠ 0 ∧ axOf x axis = taOf c x ∧ e = .runtime) := by
+  rw [apply_eq_applyNd c x axis ip hn]
+  by_cases hr : x.shape.length = 0
+  · unfold applyNd; rw [prepare_rank0 c x axis hr]
+    constructor
+    · intro h; injection h with h; exact Or.inl ⟨hr, h.symm⟩
+    · rintro (⟨_, rfl⟩ | ⟨h, _⟩)
+      · rfl
+      · exact absurd hr h
+  · by_cases hne : axOf x axis = taOf c x
+    · unfold applyNd; rw [prepare_same_axis c x axis hr hne]
+      constructor
+      · intro h; injection h with h; exact Or.inr ⟨hr, hne, h.symm⟩
+      · rintro (⟨h, _⟩ | ⟨_, _, rfl⟩)
+        · exact absurd h hr
+        · rfl
+    · rw [applyNd_eq c x axis hn hr hne]
+      constructor
+      · intro h; cases h
+      · rintro (⟨h, _⟩ | ⟨_, h, _⟩)
+        · exact absurd h hr
+        · exact absurd h hne
+
+/-- every element of the result, in terms of the (possibly padded) features -/
+theorem result_get (c : Stack α) (x : Tensor α) (axis : Int) (hn : 1 ≤ c.numVectors)
+    (hr : x.shape.length ≠ 0) (hne : axOf x axis ≠ taOf c x) (idx : List Nat)
+    (hv : valid ((x.shape.set (taOf c x) (frames c (x.shape.getD (taOf c x) 0))).set (axOf x axis)
+            (x.shape.getD (axOf x axis) 0 * c.numVectors)) idx = true) :
+    let ta := taOf c x
+    let ax := axOf x axis
+    let F := x.shape.getD ax 0
+    let t := idx.getD ax 0 / F + idx.getD ta 0 * c.numVectors
+    let src := (idx.set ax (idx.getD ax 0 % F)).set ta t
+    (ofFn ((x.shape.set ta (frames c (x.shape.getD ta 0))).set ax (F * c.numVectors))
+        (fun idx => concatVal ((List.range c.numVectors).map fun i =>
+          (padded c ta x).sliceAxis ta i (frames c (x.shape.getD ta 0) * c.numVectors) c.numVectors) ax idx)).get idx
+      = some ((padded c ta x).val src)
+    ∧ valid (padded c ta x).shape src = true
+    ∧ t < paddedLen c (x.shape.getD ta 0)
+    ∧ (t < x.shape.getD ta 0 → valid x.shape src = true) := by
+  intro ta ax F t src
+  have hta : ta < x.shape.length := emod_axis_lt _ hr
+  have hax : ax < x.shape.length := emod_axis_lt _ hr
+  have hsh := padded_shape c ta x
+  have hF : (padded c ta x).shape.getD ax 0 = F := by
+    rw [hsh, getD_set_eq, if_neg (by intro h; exact hne h.1.symm)]
+  have hshape : ((padded c ta x).shape.set ta (frames c (x.shape.getD ta 0))).set ax
+      ((padded c ta x).shape.getD ax 0 * c.numVectors)
+      = (x.shape.set ta (frames c (x.shape.getD ta 0))).set ax (F * c.numVectors) := by
+    rw [hF, hsh, List.set_set]
+  have hle : frames c (x.shape.getD ta 0) * c.numVectors ≤ (padded c ta x).shape.getD ta 0 := by
+    rw [hsh, getD_set_eq, if_pos ⟨rfl, hta⟩]; exact frames_mul_le c _ hn
+  have hget := pathNd_get c.numVectors ta ax (frames c (x.shape.getD ta 0)) (padded c ta x)
+    (by rw [hsh, List.length_set]; exact hax) hne hle idx (by rw [hshape]; exact hv)
+  rw [hshape, hF] at hget
+  -- bounds on the source position
+  have hlen : idx.length = x.shape.length := by simpa using valid_length hv
+  have hj : idx.getD ax 0 < F * c.numVectors := by
+    have := valid_getD hv (a := ax) (by simpa using hax)
+    rwa [getD_set_eq, if_pos ⟨rfl, by simpa using hax⟩] at this
+  have ht' : idx.getD ta 0 < frames c (x.shape.getD ta 0) := by
+    have := valid_getD hv (a := ta) (by simpa using hta)
+    rwa [getD_set_eq, if_neg (by intro h; exact hne h.1), getD_set_eq, if_pos ⟨rfl, hta⟩] at this
+  have hFpos : 0 < F := by
+    rcases Nat.eq_zero_or_pos F with h0 | h0
+    · rw [h0] at hj; omega
+    · exact h0
+  have hvn : idx.getD ax 0 / F < c.numVectors := Nat.div_lt_of_lt_mul hj
+  have htlt : t < paddedLen c (x.shape.getD ta 0) := by
+    have h1 : t < (idx.getD ta 0 + 1) * c.numVectors := by
+      show idx.getD ax 0 / F + idx.getD ta 0 * c.numVectors < _
+      rw [Nat.add_mul, Nat.one_mul]; omega
+    have h2 : (idx.getD ta 0 + 1) * c.numVectors ≤ frames c (x.shape.getD ta 0) * c.numVectors :=
+      Nat.mul_le_mul_right _ ht'
+    have h3 := frames_mul_le c (x.shape.getD ta 0) hn
+    omega
+  have hv1 : valid (x.shape.set ta (frames c (x.shape.getD ta 0))) (idx.set ax (idx.getD ax 0 % F)) = true :=
+    valid_of_valid_set hv (by
+      rw [getD_set_eq, if_neg (by intro h; exact hne h.1.symm)]; exact Nat.mod_lt _ hFpos)
+  refine ⟨hget, ?_, htlt, ?_⟩
+  · rw [hsh]
+    have := valid_set (a := ta) (n := paddedLen c (x.shape.getD ta 0)) (v := t) hv1 htlt
+    rwa [List.set_set] at this
+  · intro hlt
+    have := valid_set (a := ta) (n := x.shape.getD ta 0) (v := t) hv1 hlt
+    rwa [List.set_set, set_getD_self] at this
+
+end
+end Stack
 
 end PdsVerif.Model.Post
